@@ -16,6 +16,7 @@ type acceptedConn struct {
 	isn    uint32
 	at     time.Duration
 	synack int // packet id, -1 when never sent
+	unexpected bool
 }
 
 type lisState struct {
@@ -37,7 +38,7 @@ func (w *World) openListeners() error {
 			// listener a TCP SYN run holds): connecting yields ECONNREFUSED
 			ls.Addr = netip.AddrPortFrom(netip.MustParseAddr(l.Addr), 1)
 		} else {
-			ln, err := net.Listen("tcp4", l.Addr+":0")
+			ln, err := net.Listen("tcp4", l.Addr+":"+strconv.Itoa(l.Port))
 			if err != nil {
 				return err
 			}
@@ -64,62 +65,115 @@ func (w *World) closeListeners() {
 	}
 }
 
-// pollListeners accepts (without blocking) every connection the kernel has completed and puts
-// the matching synthetic SYN-ACK on the simulated wire, where every capture handle sees it.
+// wantConns is the number of endpoints that have connected to this listener: SACK endpoints
+// (first filter SYN-ACK) for its address that have got as far as a Read, i.e. whose dial succeeded.
+func (w *World) wantConns(ls *lisState) int {
+	n := 0
+	for _, ep := range w.Eps {
+		if ep.Addr == ls.Addr.Addr() && len(ep.Filters) > 0 && int(ep.Filters[0].Spec.FilterType) == 4 && ep.Filters[0].Err == "" && ep.readsParked > 0 {
+			n++
+		}
+	}
+	return n
+}
+
+func acceptOne(ln *net.TCPListener) (int, syscall.Sockaddr) {
+	rc, err := ln.SyscallConn()
+	if err != nil {
+		return -1, nil
+	}
+	nfd := -1
+	var sa syscall.Sockaddr
+	rc.Control(func(fd uintptr) {
+		nfd, sa, _ = syscall.Accept4(int(fd), syscall.SOCK_NONBLOCK|syscall.SOCK_CLOEXEC)
+	})
+	return nfd, sa
+}
+
+// pollListeners accepts the connection of every endpoint that has reached its handshake read and
+// puts the matching synthetic SYN-ACK on the simulated wire, where every capture handle sees it.
+// Connections are accepted exactly then (not whenever the kernel happens to have finished the
+// three-way handshake, which on loopback may lag connect() by a softirq), so the position of the
+// accept in the event sequence does not depend on kernel timing.
 func (w *World) pollListeners(now time.Duration) {
 	for _, ls := range w.Lis {
 		if ls.ln == nil {
 			continue
 		}
-		rc, err := ls.ln.SyscallConn()
-		if err != nil {
+		want := w.wantConns(ls)
+		for spins := 0; len(ls.Conns) < want; {
+			nfd, sa := acceptOne(ls.ln)
+			if nfd < 0 {
+				spins++
+				if spins > 20000 {
+					w.stat("harness.accept-timeout")
+					break
+				}
+				ts := syscall.Timespec{Nsec: 50000}
+				syscall.Nanosleep(&ts, nil) // real time: the bubble's clock must not move
+				continue
+			}
+			w.accepted(ls, nfd, sa, now)
+		}
+	}
+}
+
+func (w *World) accepted(ls *lisState, nfd int, sa syscall.Sockaddr, now time.Duration) {
+	c := &acceptedConn{fd: nfd, at: now, synack: -1}
+	if s4, ok := sa.(*syscall.SockaddrInet4); ok {
+		c.remote = netip.AddrPortFrom(netip.AddrFrom4(s4.Addr), uint16(s4.Port))
+	}
+	step := ls.L.ISNStep
+	if step == 0 {
+		step = 1 << 20
+	}
+	c.isn = ls.L.ISN + uint32(len(ls.Conns))*step
+	ls.Conns = append(ls.Conns, c)
+	w.stat("sack.accepted")
+	w.nConns++
+	w.Log.add(now, "lis"+strconv.Itoa(ls.Idx+1), "accept", "L"+strconv.Itoa(w.nConns))
+	if ls.L.NoSynAck {
+		w.stat("fault.noSynAck")
+		return
+	}
+	seg := codec.TCPSeg{SrcPort: ls.Addr.Port(), DstPort: c.remote.Port(), Seq: ls.L.ServerSeq, Ack: c.isn,
+		Flags: codec.FlagSYN | codec.FlagACK, Window: 65535}
+	opts := []byte{2, 4, 0xff, 0xd7}
+	if ls.L.Permitted {
+		opts = append(opts, 4, 2)
+	}
+	if ls.L.Timestamps {
+		if ls.L.TruncTS {
+			opts = append(opts, 8, 6, 0, 0, 0, 9)
+		} else {
+			opts = append(opts, codec.TimestampOption(555000, 1234)...)
+		}
+	}
+	opts = append(opts, 1, 3, 3, 7)
+	seg.Options = opts
+	t := codec.BuildTCP(ls.Addr.Addr(), c.remote.Addr(), seg)
+	b := codec.BuildIPv4(ls.Addr.Addr(), c.remote.Addr(), codec.ProtoTCP, 64, codec.V4Opts{Flags: 2}, t)
+	c.synack = w.inject(b, now+time.Duration(ls.L.SynAckDelayUs)*time.Microsecond, PktOrigin{Handshake: true, Form: "handshake"})
+}
+
+// sweepListeners accepts whatever is left in the accept queues at the end of a run: connections
+// nobody was expected to open (they count for the "no connection is opened" rules).
+func (w *World) sweepListeners() {
+	for _, ls := range w.Lis {
+		if ls.ln == nil {
 			continue
 		}
-		for {
-			nfd := -1
-			var sa syscall.Sockaddr
-			var aerr error
-			rc.Control(func(fd uintptr) {
-				nfd, sa, aerr = syscall.Accept4(int(fd), syscall.SOCK_NONBLOCK|syscall.SOCK_CLOEXEC)
-			})
-			if aerr != nil || nfd < 0 {
+		for k := 0; k < 64; k++ {
+			nfd, sa := acceptOne(ls.ln)
+			if nfd < 0 {
 				break
 			}
-			c := &acceptedConn{fd: nfd, at: now, synack: -1}
+			c := &acceptedConn{fd: nfd, synack: -1, unexpected: true}
 			if s4, ok := sa.(*syscall.SockaddrInet4); ok {
 				c.remote = netip.AddrPortFrom(netip.AddrFrom4(s4.Addr), uint16(s4.Port))
 			}
-			step := ls.L.ISNStep
-			if step == 0 {
-				step = 1 << 20
-			}
-			c.isn = ls.L.ISN + uint32(len(ls.Conns))*step
 			ls.Conns = append(ls.Conns, c)
-			w.stat("sack.accepted")
-			w.nConns++
-			w.Log.add(now, "lis"+strconv.Itoa(ls.Idx+1), "accept", "L"+strconv.Itoa(w.nConns))
-			if ls.L.NoSynAck {
-				w.stat("fault.noSynAck")
-				continue
-			}
-			seg := codec.TCPSeg{SrcPort: ls.Addr.Port(), DstPort: c.remote.Port(), Seq: ls.L.ServerSeq, Ack: c.isn,
-				Flags: codec.FlagSYN | codec.FlagACK, Window: 65535}
-			opts := []byte{2, 4, 0xff, 0xd7}
-			if ls.L.Permitted {
-				opts = append(opts, 4, 2)
-			}
-			if ls.L.Timestamps {
-				if ls.L.TruncTS {
-					opts = append(opts, 8, 6, 0, 0, 0, 9)
-				} else {
-					opts = append(opts, codec.TimestampOption(555000, 1234)...)
-				}
-			}
-			opts = append(opts, 1, 3, 3, 7)
-			seg.Options = opts
-			t := codec.BuildTCP(ls.Addr.Addr(), c.remote.Addr(), seg)
-			b := codec.BuildIPv4(ls.Addr.Addr(), c.remote.Addr(), codec.ProtoTCP, 64, codec.V4Opts{Flags: 2}, t)
-			c.synack = w.inject(b, now+time.Duration(ls.L.SynAckDelayUs)*time.Microsecond, PktOrigin{Handshake: true, Form: "handshake"})
+			w.stat("sack.accepted-unexpected")
 		}
 	}
 }
